@@ -2,7 +2,8 @@
  *
  * usage: c20_sample random <seed> <ncases>
  *        c20_sample big    <seed> <ncases>
- *        c20_sample exh    <shard> <nshards>           exhaustive small space (thorough tier)
+ *        c20_sample exh    <shard> <nshards> [points]  exhaustive small space (thorough tier); points = loop-grid
+ *                                                      points per combination in part 0 (default 3)
  *        c20_sample replay <file>                      case lines (other lines ignored)
  * env C20_FLUSH=1: flush after every case line (to name the case a sanitizer abort happened in)
  *
@@ -336,7 +337,7 @@ static void grid_loop(int g, int len, int *lps, int *lpe, int *lf)
 	*lf = LOOPFLG[c];
 }
 
-static void exhaustive(long shard, long nshards)
+static void exhaustive(long shard, long nshards, int points)
 {
 	static const int ebits[10] = { SAMPLE_FLAG_DIFF, SAMPLE_FLAG_UNS, SAMPLE_FLAG_8BDIFF, SAMPLE_FLAG_7BIT,
 		SAMPLE_FLAG_NOLOAD, SAMPLE_FLAG_BIGEND, SAMPLE_FLAG_VIDC, SAMPLE_FLAG_INTERLEAVED, SAMPLE_FLAG_FULLREP,
@@ -348,7 +349,7 @@ static void exhaustive(long shard, long nshards)
 
 	memset(&c, 0, sizeof(c));
 	for (part = 0; part < 2; part++) {
-		/* part 0: every flag combination, rotating through the loop grid (3 points per combination);
+		/* part 0: every flag combination, rotating through the loop grid (`points` per combination);
 		 * part 1: the full loop grid on a reduced flag set */
 		int nfm = part == 0 ? 1024 : 4;
 		for (fm = 0; fm < nfm; fm++) {
@@ -367,7 +368,7 @@ static void exhaustive(long shard, long nshards)
 					int need = len > 0 ? need_bytes(flags, wf, len) : 0;
 					int amax = (flags & SAMPLE_FLAG_NOLOAD) ? 0 : need + 3;
 					for (avail = 0; avail <= amax; avail++) {
-						int nk = part == 0 ? 3 : GRID;
+						int nk = part == 0 ? points : GRID;
 						if (part == 1 && !(avail == 0 || avail == 1 || avail == need / 2 || avail == need - 1
 								   || avail == need || avail == need + 1))
 							continue;
@@ -466,7 +467,7 @@ int main(int argc, char **argv)
 	if (argc < 4)
 		return 2;
 	if (!strcmp(argv[1], "exh")) {
-		exhaustive(atol(argv[2]), atol(argv[3]));
+		exhaustive(atol(argv[2]), atol(argv[3]), argc > 4 ? atoi(argv[4]) : 3);
 	} else {
 		int big = !strcmp(argv[1], "big");
 		vrng_seed((uint64_t)atoll(argv[2]) * 31 + big);
